@@ -179,7 +179,7 @@ all_regex = re.compile(r"\b(?P<all>ALL)(?P<context>.{1,6})?", re.IGNORECASE)
 # Must be at word boundaries, per \b.
 half_plus_q_regex = re.compile(
     fr"""
-    ((?<=½)|(?<=\b))                # Lookbehind of word boundary or '½' 
+    ((?<=[½¼])|(?<=\b))             # Lookbehind of word boundary, '½' or '¼'
     (?P<half_aliquot>[NESW]½)       # Which aliquot half.
     
     (
